@@ -354,9 +354,10 @@ func runC02(c *Ctx) {
 			}
 		}
 		// the patches applied are op.Delta.Patches of the same op
-		for _, cl := range callsNamed(f, "ApplyPatches") {
+		for _, tc := range c.treeCalls(f, nil, 0, func(cl *ssa.Call, env Env) bool { return callNamed(cl, "ApplyPatches") }) {
+			cl := tc.call
 			a := declArgs(cl)
-			c.Check("C02.G5", "apply-"+typ+":patches-source", len(a) == 2 && c.Path(a[1], nil) == P+"#0.Delta.Patches", cl.Pos(), "ApplyPatches receives "+c.Path(a[len(a)-1], nil)+" (expected the hash-checked op.Delta.Patches)")
+			c.Check("C02.G5", "apply-"+typ+":patches-source", len(a) == 2 && c.Path(a[1], tc.env) == P+"#0.Delta.Patches", cl.Pos(), "ApplyPatches receives "+c.Path(a[len(a)-1], tc.env)+" (expected the hash-checked op.Delta.Patches)")
 		}
 	}
 	c.isValidModelMultihashContract("C02.G5")
